@@ -96,10 +96,10 @@ impl Mon {
         self.hmin = self.hmin.min(s);
         self.hmax = self.hmax.max(s);
         // transparent identity changes at two points of the stream
-        if t == 2 * n + 2 {
+        if t == n.saturating_mul(2).saturating_add(2) {
             self.inst.perturb(1);
         }
-        if t == 3 * n + 5 {
+        if t == n.saturating_mul(3).saturating_add(5) {
             self.inst.perturb(0);
         }
         let out = match self.inst.feed(x) {
@@ -312,8 +312,29 @@ fn run_bars(ctx: &Ctx) -> Report {
     })
 }
 
+fn run_huge_periods(ctx: &Ctx) -> Report {
+    let jobs = crate::common::huge_period_params();
+    let seed = ctx.seed;
+    par_run(jobs, ctx.threads, move |p, rep| {
+        if !KINDS.contains(&p.kind) || p.k < 0.0 || Inst::try_new(p).is_err() {
+            return;
+        }
+        let mut rng = Rng::derive(seed, 0xC09E, p.p[0] as u64 ^ p.p[1] as u64);
+        let xs = rand_stream(RAND_KINDS[rng.below(RAND_KINDS.len())], 300, &mut rng);
+        let inputs: Vec<In> = xs.iter().map(|x| In::S(*x)).collect();
+        let mut mon = Mon { p: *p, inst: Inst::new(p), t: 0, m: 0.0, w: VecDeque::new(), wh: VecDeque::new(), wl: VecDeque::new(), hmin: f64::INFINITY, hmax: f64::NEG_INFINITY, dead: false };
+        for (i, x) in inputs.iter().enumerate() {
+            mon.step(rep, x, &inputs[..=i]);
+        }
+        rep.count("huge_period_streams");
+    })
+}
+
 pub fn run(ctx: &Ctx) -> Report {
     let mut rep = Report::new();
+    if ctx.phase_enabled("huge") {
+        rep.merge(run_huge_periods(ctx));
+    }
     if ctx.phase_enabled("scalar") {
         rep.merge(run_scalar(ctx));
     }
